@@ -165,6 +165,11 @@ pub mod digest {
             }
             let out = fresh_output(input);
             if log.injective {
+                // the all-zero value is what the tree pads odd levels with: a hash output equal to it
+                // would be a preimage of a fixed constant (assumed away together with collisions)
+                assume(!blk::eq64(&out, &[0u8; 64]));
+                let z32: [u8; 32] = out[..32].try_into().unwrap();
+                assume(!blk::eq32(&z32, &[0u8; 32]));
                 let mut j = 0;
                 while j < log.n {
                     assume(!blk::eq64(&log.q[j].output, &out));
